@@ -25,9 +25,10 @@ RULE = ("Cases = (function, point, order, options, precision 30..300, API). Func
         "allowance of the documented finite-difference method (one-sided or singular or diffs' shifted stencil: "
         "(n+1)|h| mag_{n+1}; central: n h^2 mag_{n+2}; evaluation at (n+1) times the precision: 2^-workprec 2^n mag_0/|h|^n), "
         "negligible for the default options. With a user supplied h the reference is the exact difference quotient "
-        "of that step (the docstring's meaning of h).  method='quad': S also includes 2^-6 of the Cauchy bound n! "
-        "max|f| / r^n of the documented contour integral and the absolute floor max(1, n!/64), because quadts stops on an "
-        "absolute error estimate (quadrature accuracy is not this property's business). diffun(f,n)(x) must equal diff(f,x,n) bit for bit; diffs "
+        "of that step (the docstring's meaning of h).  method='quad': S also includes 2^-14 of the Cauchy bound n! "
+        "max|f| / r^n of the documented contour integral (the integrand is summed with 10 guard bits) and the absolute "
+        "floor n!/1024, because quadts stops on an absolute error estimate (quadrature accuracy is not this property's "
+        "business). diffun(f,n)(x) must equal diff(f,x,n) bit for bit; diffs "
         "yields f^(k)(x) for k = 0..n; taylor yields f^(k)(x)/k! (default chop: absolute 2^(10-p) added). "
         "difference(s,n) against the exact sum (-1)^(n-k) C(n,k) s_k over Fractions (bit-exact when every partial "
         "sum is representable, else 2^(10-p) sum C(n,k)|s_k|). differint(t^k, x, n, x0=0) for real orders n in [-3, 3.5] "
@@ -775,7 +776,7 @@ def _check_diff(c, res, mp, mr):
     if method == "quad":
         r = mr.mpf(o["radius"][0]) / 2 ** o["radius"][1] if "radius" in o else mr.mpf(0.25)
         cb = _cauchy(mr, f["atoms"], orc.X[0], nv[0], r)
-        scale = max(scale, cb / 64, mr.mpf(factorial(nv[0])) / 64, 1)
+        scale = max(scale, cb / 2 ** 14, mr.mpf(factorial(nv[0])) / 1024)
         _cmp(res, "diff:quad", "diff(method='quad') [%s]" % desc, gref, ex, scale, 0, p, mr, "quad_err/tol")
         return
     if sum(nv) == 0 and not o.get("singular"):
@@ -869,7 +870,7 @@ def _check_diffs(c, res, mp, mr):
         ex = orc.deriv([k])
         scale = max(abs(ex), orc.mag([k]))
         if method == "quad":
-            scale = max(scale, _cauchy(mr, f["atoms"], orc.X[0], k, mr.mpf(0.25)) / 64, mr.mpf(factorial(k)) / 64, 1)
+            scale = max(scale, _cauchy(mr, f["atoms"], orc.X[0], k, mr.mpf(0.25)) / 2 ** 14, mr.mpf(factorial(k)) / 1024)
             allow = mr.zero
         elif k == 0 and not o.get("singular"):
             allow = mr.zero
